@@ -451,6 +451,8 @@ class Interp:
         raise Undecided(f"class {c.name} has no attribute {name}")
 
     def construct(self, c: ClassRef, args, kwargs):
+        if (c.module, c.name) in self.hooks:
+            return self.hooks[(c.module, c.name)](self, args, kwargs)
         fields = self.class_fields(c)
         nt = self.is_namedtuple(c)
         init = self.find_method(c, "__init__")
@@ -503,6 +505,10 @@ class Interp:
             return self.call_builtin(f.name, args, kwargs, node)
         if isinstance(f, PyCallable):
             return f.fn(self, args, kwargs)
+        if isinstance(f, Ext) and hasattr(f, "sym_call"):
+            return f.sym_call(self, args, kwargs)
+        if isinstance(f, Rec) and self.find_method(f.cls, "__call__"):
+            return self.rec_op(f, "__call__", args)
         if isinstance(f, Unknown):
             raise Undecided(f"call of an unknown callable ({f.why}): its effect on the arguments is not known")
         raise Undecided(f"call of non-callable {f!r}")
@@ -1742,7 +1748,7 @@ def explore(repo: Repo, fn, args: list, kwargs: Optional[dict] = None, max_paths
             setup(it)
         a, k = (args, kwargs or {}) if fresh_args is None else fresh_args()
         try:
-            v = it.call(fn, list(it.deepcopy(list(a))), dict(k))
+            v = it.call(fn, list(a) if fresh_args is not None else list(it.deepcopy(list(a))), dict(k))
             outcomes.append(Outcome(list(it.taken), value=v, assumptions=list(it.assumptions)))
         except NeedDecision:
             work.append(dec + [False])
